@@ -42,6 +42,7 @@ REQUIRED = {
         'descending-grids': 10,
         'reversals-compared': 30,
         'refinements-compared': 30,
+        'grids-in-other-containers-compared': 20,
         'zero-curvature-water-balance-checked': 8,
         'peatclsm-cases': 5,
         'integer-typed-grids': 4,
@@ -206,6 +207,31 @@ def verify_function_case(ctx, rng, kind, combo, psy, pT, sy, T, breaks, grid, et
                       {'level': float(grid[i]), 't_minus_t0': float(t[i] - t[0]), 'integral': float(ref[i]), 'scale': scale}, case, 'rec_fn')
         return
     rec.hit('curves-vs-reference-quadrature')
+    # the same grid in another container: read-only, a strided view, big-endian -- same curve,
+    # the caller's grid unchanged
+    k = rec.evaluations % 3
+    other = grid.copy()
+    if k == 0:
+        other.setflags(write=False)
+    elif k == 1:
+        wide = np.empty((len(grid), 2))
+        wide[:, 0], wide[:, 1] = grid, -1.0
+        other = wide[:, 0]
+    else:
+        other = grid.astype('>f8')
+    form = ['read-only', 'strided view', 'big-endian'][k]
+    try:
+        t3 = np.asarray(sim.compute_recession_curve(sy, T, other, mean, kappa, et), dtype=float)
+    except Exception as exc:  # pylint: disable=broad-except
+        rec.violation('grid-refused-in-another-container', {'form': form, 'exception': core.describe_exception(exc)}, case, 'rec_fn')
+        return
+    if not np.array_equal(np.asarray(other, dtype=float), grid):
+        rec.violation('grid-handed-in-is-modified', {'form': form}, case, 'rec_fn')
+        return
+    if t3.shape != t.shape or float(np.max(np.abs(t3 - t))) > 1e-9 * scale + abs_tol:
+        rec.violation('curve-depends-on-the-container-of-the-grid', {'form': form, 'max_difference': float(np.max(np.abs(t3 - t)))}, case, 'rec_fn')
+        return
+    rec.hit('grids-in-other-containers-compared')
     # time increases as the level falls (sy >= 0 is not guaranteed between knots: test only where the reference agrees)
     order = np.argsort(grid)
     ts = t[order]
